@@ -34,7 +34,7 @@ func lowerFirstASCII(s string) string {
 func checkC09(cfg *core.Config) int {
 	rep := core.NewReport(cfg)
 	var progs []*synth.Program
-	n := cfg.Pick(12, 150)
+	n := cfg.Pick(12, 1200)
 	cover := int(cfg.Seed) * 7
 	for i := 0; i < n; i++ {
 		a, b := synth.NewTagProgPair(i, core.Rand(cfg.Seed, "tagprog", i), cover)
